@@ -241,9 +241,12 @@ class Check:
                 self.escalation["level"] = 2
             elif ch["other"]:
                 self.escalation["level"] = 1
+        cap = getattr(mod, "ESCALATE_MAX_CASES", None) if gen_tier != self.tier else None
         for c in mod.cases(rng, gen_tier):
             c.setdefault("_origin", "gen")
             cases.append(c)
+            if cap and len(cases) >= cap:
+                break       # an I/O-heavy property bounds its escalated run (the thorough tier proper is not bounded)
         if self.escalation["level"] == 1:
             seen = {c.get("req") for c in cases if c.get("req") is not None}
             for k in (1, 2):
